@@ -1174,9 +1174,15 @@ func (b *BaseStore) replicationLoadComplete(ctx context.Context, logs []ipfslog.
 	}
 
 	// only store heads that has been verified and merges
-	heads := oplog.Heads()
+	heads := oplog.Heads().Slice()
 
-	headsBytes, err := json.Marshal(heads.Slice())
+	// a batch can be merged before Load has read the cached heads back (the
+	// store replicates from the moment it is opened): the heads recorded by
+	// an earlier run that the log does not hold yet name history that nothing
+	// else refers to, they are kept until the log has caught up with them
+	heads = append(heads, b.cachedRemoteHeadsNotIn(ctx, oplog)...)
+
+	headsBytes, err := json.Marshal(heads)
 	if err != nil {
 		b.Logger().Error("unable to serialize heads cache", zap.Error(err))
 		return
@@ -1192,12 +1198,41 @@ func (b *BaseStore) replicationLoadComplete(ctx context.Context, logs []ipfslog.
 		b.recalculateReplicationStatus(oplog.Len())
 	}
 
-	b.Logger().Debug(fmt.Sprintf("Saved heads %d", heads.Len()))
+	b.Logger().Debug(fmt.Sprintf("Saved heads %d", len(heads)))
 
 	// logger.debug(`<replicated>`)
 	if err := b.emitters.evtReplicated.Emit(stores.NewEventReplicated(b.Address(), entries, len(logs))); err != nil {
 		b.Logger().Warn("unable to emit event replicated", zap.Error(err))
 	}
+}
+
+// cachedRemoteHeadsNotIn returns the remote heads recorded in the cache that
+// oplog does not hold
+func (b *BaseStore) cachedRemoteHeadsNotIn(ctx context.Context, oplog ipfslog.Log) []ipfslog.Entry {
+	raw, err := b.Cache().Get(ctx, datastore.NewKey("_remoteHeads"))
+	if err != nil || raw == nil {
+		return nil
+	}
+
+	var cached []*entry.Entry
+	if err := json.Unmarshal(raw, &cached); err != nil {
+		return nil
+	}
+
+	var kept []ipfslog.Entry
+	for _, h := range cached {
+		if h == nil || !h.GetHash().Defined() {
+			continue
+		}
+
+		if _, ok := oplog.Get(h.GetHash()); ok {
+			continue
+		}
+
+		kept = append(kept, h)
+	}
+
+	return kept
 }
 
 func entriesBelongToLog(l ipfslog.Log, id string) bool {
